@@ -986,7 +986,7 @@ func c06IsResolvedDigest(v ssa.Value, resolves []ssa.CallInstruction) bool {
 
 var c06Mutants = []Mutant{
 	// R1
-	{Name: "resolver-tag-under-read-lock", File: "internal/resolver/memory.go", Old: "\tm.lock.Lock()\n\tdefer m.lock.Unlock()\n\n\tm.index[reference] = desc", New: "\tm.lock.RLock()\n\tdefer m.lock.RUnlock()\n\n\tm.index[reference] = desc", Expect: "C06.R1.guarded-by|(*~/internal/resolver.Memory).Tag|"},
+	{Name: "resolver-tag-under-read-lock", File: "internal/resolver/memory.go", Old: "func (m *Memory) Tag(_ context.Context, desc ocispec.Descriptor, reference string) error {\n\tm.lock.Lock()\n\tdefer m.lock.Unlock()\n", New: "func (m *Memory) Tag(_ context.Context, desc ocispec.Descriptor, reference string) error {\n\tm.lock.RLock()\n\tdefer m.lock.RUnlock()\n", Expect: "C06.R1.guarded-by|(*~/internal/resolver.Memory).Tag|"},
 	{Name: "resolver-map-without-lock", File: "internal/resolver/memory.go", Old: "\tm.lock.RLock()\n\tdefer m.lock.RUnlock()\n\n\treturn maps.Clone(m.index)", New: "\treturn maps.Clone(m.index)", Expect: "C06.R1.guarded-by|(*~/internal/resolver.Memory).Map|"},
 	{Name: "oci-delete-under-read-lock", File: "content/oci/oci.go", Old: "\ts.sync.Lock()\n\tdefer s.sync.Unlock()\n\n\tdeleteQueue := []ocispec.Descriptor{target}", New: "\ts.sync.RLock()\n\tdefer s.sync.RUnlock()\n\n\tdeleteQueue := []ocispec.Descriptor{target}", Expect: "C06.R1.guarded-by|(*~/content/oci.Store).Delete|unsafeStore-constructed-under-exclusive-lock"},
 	{Name: "oci-gc-under-read-lock", File: "content/oci/oci.go", Old: "\ts.sync.Lock()\n\tdefer s.sync.Unlock()\n\n\t// get reachable nodes by reloading the index", New: "\ts.sync.RLock()\n\tdefer s.sync.RUnlock()\n\n\t// get reachable nodes by reloading the index", Expect: "C06.R1.guarded-by|(*~/content/oci.Store).gcIndex|"},
